@@ -416,8 +416,12 @@ def inner_factories(name):
         "SkBaseTransformLearner": [("model", lambda f, nj: sk.SkBaseTransformLearner(C(f), "predict_proba"))],
         "SkBaseTransformStacking": [("models", lambda f, nj: sk.SkBaseTransformStacking(
             [LogisticRegression(), C(f), DecisionTreeClassifier(max_depth=2)], "predict_proba"))],
-        "DecisionTreeLogisticRegression": [("estimator", lambda f, nj: mm.DecisionTreeLogisticRegression(
-            C(f), max_depth=3, fit_improve_algo="none"))],
+        "DecisionTreeLogisticRegression": [
+            ("estimator", lambda f, nj: mm.DecisionTreeLogisticRegression(C(f), max_depth=3, fit_improve_algo="none")),
+            ("estimator/auto", lambda f, nj: mm.DecisionTreeLogisticRegression(
+                C(f), max_depth=3, fit_improve_algo="auto", min_samples_leaf=2)),
+            ("estimator/intercept_sort", lambda f, nj: mm.DecisionTreeLogisticRegression(
+                C(f), max_depth=4, fit_improve_algo="intercept_sort", min_samples_leaf=2))],
         "PredictableTSNE": [("estimator", lambda f, nj: mm.PredictableTSNE(
             estimator=R(f), transformer=__import__("sklearn.manifold", fromlist=["TSNE"]).TSNE(
                 perplexity=4, max_iter=250, random_state=0)))],
